@@ -15,8 +15,8 @@ from .symx import Expander
 
 
 class Alt:
-    def __init__(self, env, total, guards):
-        self.env, self.total, self.guards = env, total, guards
+    def __init__(self, env, total, guards, done=False):
+        self.env, self.total, self.guards, self.done = env, total, guards, done      # done: the path has returned
 
 
 def count_calls(ex: Expander, stmts, env, weight, guards=()):
@@ -25,7 +25,10 @@ def count_calls(ex: Expander, stmts, env, weight, guards=()):
     for st in stmts:
         nxt = []
         for a in alts:
-            nxt.extend(_stmt(ex, st, a, weight))
+            if a.done:
+                nxt.append(a)             # nothing after a `return` runs on this path
+            else:
+                nxt.extend(_stmt(ex, st, a, weight))
         alts = nxt
     return alts
 
@@ -72,6 +75,9 @@ def _stmt(ex, st, a, weight):
         n = _range_count(ex, st.iter, env)
         inner = count_calls(ex, st.body, env, weight, a.guards)
         out = []
+        if any(b.done for b in inner) or any(isinstance(x, (ast.Break, ast.Continue)) for b_ in st.body for x in ast.walk(b_)
+                                             if not isinstance(b_, (ast.For, ast.While))) and any(not b.total.is_zero() for b in inner):
+            raise Unsupported(f"loop at line {st.lineno} is left early (return / break / continue): its trip count is not its range")
         for b in inner:
             if b.total.is_zero():
                 out.append(Alt(b.env, a.total, b.guards))
@@ -96,23 +102,29 @@ def _stmt(ex, st, a, weight):
                     return [Alt(body[0].env, a.total + contrib, a.guards)]
         touched = _assigned_names(st)
         no_calls = all(b.total.is_zero() for b in body + orelse)
-        if no_calls and not touched:
+        exits = any(isinstance(x, (ast.Return, ast.Raise)) for x in ast.walk(st))
+        if no_calls and not touched and not exits:
             return [a]
         out = []
         for b in body:
-            out.append(Alt(b.env, a.total + b.total, b.guards + [("true", st.test)]))
+            out.append(Alt(b.env, a.total + b.total, b.guards + [("true", st.test)], b.done))
         for b in orelse:
-            out.append(Alt(b.env, a.total + b.total, b.guards + [("false", st.test)]))
+            out.append(Alt(b.env, a.total + b.total, b.guards + [("false", st.test)], b.done))
         return out
     if isinstance(st, ast.While):
         inner = count_calls(ex, st.body, env, weight, a.guards)
         if any(not (b.total).is_zero() for b in inner):
             raise Unsupported(f"while loop at line {st.lineno} contains counted calls")
         return [a]
-    if isinstance(st, (ast.Return, ast.Raise, ast.Pass, ast.Assert)):
+    if isinstance(st, ast.Return):
+        w = _expr_weight(ex, st.value, env, weight) if st.value is not None else R.const(0)
+        return [Alt(env, a.total + w, a.guards, True)]
+    if isinstance(st, ast.Raise):
+        return []                         # the path ends in an exception: not a completed request
+    if isinstance(st, (ast.Pass, ast.Assert)):
         return [a]
     if isinstance(st, ast.Try):
-        return [Alt(b.env, a.total + b.total, b.guards) for b in count_calls(ex, st.body, env, weight, a.guards)]
+        return [Alt(b.env, a.total + b.total, b.guards, b.done) for b in count_calls(ex, st.body, env, weight, a.guards)]
     return [a]
 
 
